@@ -180,6 +180,8 @@ def gen_coll_case(rng):
     for i in range(nm):
         members.append(dict(id=i, name=rng.choice(NAMES), attrs=[rng.choice([20.0, 50.0, 80.0, 120.0]), rng.choice([30.0, 60.0, 90.0, 150.0]),
                                                                   rng.choice([10.0, 20.0, 30.0])]))
+        if rng.random() < 0.15:
+            members[-1]["inactive"] = True
     ops = []
     for _ in range(rng.randint(1, 14)):
         k = rng.random()
@@ -218,6 +220,9 @@ def run_coll_case(members, ops):
     for o, m in zip(objs, members):   # sort attributes must be what the model is told (t_target may be nudged when isothermal)
         m["attrs"] = [o.t_supply, o.t_target, o.heat_flow]
     ident = {id(o): i for i, o in enumerate(objs)}
+    for o, m in zip(objs, members):
+        if m.get("inactive"):
+            o.active = False          # a switched-off stream is still a member: it is held, counted and iterated like any other
     c = StreamCollection()
     obs = []
     for op in ops:
@@ -318,7 +323,10 @@ def judge_coll_cases(ctx, cases, suite):
 def coll_suite(ctx):
     n = ctx.budget(500, 12000)
     m0 = [dict(id=i, name="n", attrs=[float(50 + 10 * i), 10.0, 5.0]) for i in range(8)]
-    corpus = [(m0, [("replace", [0, 1])]),                                      # D20: equal names must both survive replace
+    m1 = [dict(m, inactive=(m["id"] in (1, 3))) for m in m0]
+    corpus = [(m1, [("add", 0, None, True), ("add", 1, None, True), ("add", 2, None, True), ("add", 3, None, True), ("iter",), ("index", 1), ("len",),
+                    ("concat", [3, 4], False), ("iter",)]),                   # switched-off members are members
+              (m0, [("replace", [0, 1])]),                                      # D20: equal names must both survive replace
               (m0, [("add", 0, None, True), ("add", 1, None, True), ("add", 2, None, True), ("remove", "n_1"), ("add", 3, None, True), ("iter",)])]
     cases = corpus + [gen_coll_case(ctx.rng) for _ in range(n)]
     res = judge_coll_cases(ctx, [(m, o) for m, o in cases], "coll")
